@@ -1,8 +1,632 @@
-//! C09 — not built yet.
+//! C09 — border pixels show the colour written to the ULA before the beam got there.
+//! Real code: a real `Emulator`; port writes through hook `verif_write_io` (the CPU's `write_io`
+//! entry point, contention included) at chosen frame clocks (`verif_set_frame_clocks`, forward
+//! only), through a real `OUT (n),A`, and a snapshot border through an SNA load. After every
+//! completed frame the 320x240 border buffer is compared with the Lean model exactly (FNV-1a hash)
+//! and adjudicated by the executable spec (±16 px on a line) — the buffer travels as run lengths
+//! only when it differs from the model's.
+use crate::host::*;
 use crate::util::*;
+use rustzx_core::host::Snapshot;
+use std::panic::{catch_unwind, AssertUnwindSafe};
+use std::time::Duration;
 
-pub fn run(_o: &Opts) -> Report {
+const CORR: &str = "corr.C09.border (Model.Video Border.setBorder / newFrame / Ctl.writeIo vs Emulator + ZXBorder)";
+const W: usize = 320;
+const H: usize = 240;
+
+fn fnv(px: &[u8]) -> u64 {
+    let mut h: u64 = 0xcbf29ce484222325;
+    for b in px {
+        h = (h ^ (*b as u64)).wrapping_mul(0x100000001b3);
+    }
+    h
+}
+
+fn clocks_frame(m128: bool) -> usize {
+    if m128 {
+        70908
+    } else {
+        69888
+    }
+}
+fn line_len(m128: bool) -> usize {
+    if m128 {
+        228
+    } else {
+        224
+    }
+}
+fn origin(m128: bool) -> usize {
+    (if m128 { 14362 } else { 14336 }) - 24 * line_len(m128) - 16 + 1
+}
+
+#[derive(Clone, Debug, PartialEq)]
+enum Op {
+    Wait(usize),
+    SetClk(usize),
+    Out(u16, u8),
+    /// `OUT (n),A` executed by the emulated CPU, A = high byte of the port and the data
+    Z80Out(u8, u8),
+    /// SNA load (48K machine only) with this border byte
+    Snap(u8),
+    Frame,
+}
+
+impl Op {
+    fn text(&self) -> String {
+        match self {
+            Op::Wait(n) => format!("wait {:x}", n),
+            Op::SetClk(t) => format!("setclk {:x}", t),
+            Op::Out(p, v) => format!("out {:04x} {:02x}", p, v),
+            Op::Z80Out(n, a) => format!("z80out {:02x} {:02x}", n, a),
+            Op::Snap(c) => format!("snap {:02x}", c),
+            Op::Frame => "frame".into(),
+        }
+    }
+    fn parse(s: &str) -> Option<Op> {
+        let t: Vec<&str> = s.split_whitespace().collect();
+        let n = |x: &str| usize::from_str_radix(x, 16).ok();
+        Some(match t.as_slice() {
+            ["wait", a] => Op::Wait(n(a)?),
+            ["setclk", a] => Op::SetClk(n(a)?),
+            ["out", p, v] => Op::Out(n(p)? as u16, n(v)? as u8),
+            ["z80out", p, v] => Op::Z80Out(n(p)? as u8, n(v)? as u8),
+            ["snap", c] => Op::Snap(n(c)? as u8),
+            ["frame"] => Op::Frame,
+            _ => return None,
+        })
+    }
+}
+
+#[derive(Clone)]
+struct Case {
+    m128: bool,
+    ops: Vec<Op>,
+}
+impl Case {
+    fn text(&self) -> String {
+        let mut s = format!("m128={}", if self.m128 { 1 } else { 0 });
+        for o in &self.ops {
+            s.push_str(" ; ");
+            s.push_str(&o.text());
+        }
+        s
+    }
+    fn parse(s: &str) -> Case {
+        let mut parts = s.split(';').map(|x| x.trim());
+        let m128 = parts.next().unwrap_or("") == "m128=1";
+        Case { m128, ops: parts.filter_map(Op::parse).collect() }
+    }
+}
+
+#[derive(Clone, Debug)]
+struct Fail {
+    kind: Kind,
+    key: String,
+    what: String,
+    imp: String,
+    exp: String,
+}
+
+#[derive(Default)]
+struct Out {
+    evals: u64,
+    classes: Vec<String>,
+    counts: Vec<(String, String)>,
+}
+
+/// where in the frame a write is latched
+fn region(m128: bool, t: usize) -> &'static str {
+    let o = origin(m128);
+    let l = line_len(m128);
+    if t < o {
+        return "before-first-line";
+    }
+    let d = t - o;
+    let (line, x) = (d / l, (d % l + 1) * 2);
+    if line >= H {
+        return "after-last-line";
+    }
+    if x > W + 2 {
+        return "retrace";
+    }
+    if line < 24 {
+        "top-border"
+    } else if line >= 216 {
+        "bottom-border"
+    } else if x < 32 {
+        "left-border"
+    } else if x >= 288 {
+        "right-border"
+    } else {
+        "behind-picture"
+    }
+}
+
+struct Sim<'a> {
+    e: Emu,
+    m128: bool,
+    model: &'a mut Model,
+    frames: u64,
+    last_fc: usize,
+    writes_this_frame: usize,
+    writes_last_frame: usize,
+    fails: Vec<Fail>,
+}
+
+impl<'a> Sim<'a> {
+    fn new(model: &'a mut Model, m128: bool) -> Sim<'a> {
+        let mut e = emu(&Cfg::new(m128));
+        e.set_debug_interface(Dbg { break_all: true, ..Default::default() });
+        let _ = model.ask(&format!("new {}", if m128 { 1 } else { 0 }));
+        Sim { e, m128, model, frames: 0, last_fc: 0, writes_this_frame: 0, writes_last_frame: 0, fails: vec![] }
+    }
+    fn fail(&mut self, kind: Kind, key: &str, what: String, imp: String, exp: String) {
+        if !self.fails.iter().any(|f| f.key == key) {
+            self.fails.push(Fail { kind, key: key.to_string(), what, imp, exp });
+        }
+    }
+    fn sync_frames(&mut self) {
+        let fc = self.e.verif_frames_count();
+        if fc >= self.last_fc && fc > self.last_fc {
+            self.frames += (fc - self.last_fc) as u64;
+            self.writes_last_frame = self.writes_this_frame;
+            self.writes_this_frame = 0;
+        }
+        self.last_fc = fc;
+    }
+    fn model_op(&mut self, line: &str) -> String {
+        let r = self.model.ask(line);
+        let mut it = r.split(' ');
+        let mc = usize::from_str_radix(it.next().unwrap_or("x"), 16).unwrap_or(usize::MAX);
+        let mf = u64::from_str_radix(it.next().unwrap_or("x"), 16).unwrap_or(u64::MAX);
+        let rc = self.e.verif_frame_clocks();
+        if mc != rc || mf != self.frames & 0xFFFF {
+            self.fail(
+                Kind::ModelMismatch,
+                "C09/model/clock",
+                format!("after `{}` the emulator is at frame clock {} / {} frames, the model at {} / {}", line, rc, self.frames, mc, mf),
+                format!("{}/{}", rc, self.frames),
+                format!("{}/{}", mc, mf),
+            );
+        }
+        it.next().unwrap_or("-").to_string()
+    }
+    fn finish_frame(&mut self) {
+        let f = clocks_frame(self.m128);
+        let left = f - self.e.verif_frame_clocks().min(f - 1);
+        self.e.verif_wait(left);
+        self.sync_frames();
+        self.model_op(&format!("wait {:x}", left));
+    }
+    fn rle(px: &[u8]) -> String {
+        let mut s = String::new();
+        let mut i = 0;
+        while i < px.len() {
+            let mut j = i;
+            while j < px.len() && px[j] == px[i] {
+                j += 1;
+            }
+            if !s.is_empty() {
+                s.push(',');
+            }
+            s.push_str(&format!("{:x}:{:x}", j - i, px[i]));
+            i = j;
+        }
+        s
+    }
+    fn check_frame(&mut self, out: &mut Out) {
+        out.evals += 1;
+        let px = self.e.border_buffer().px.clone();
+        let real = fnv(&px);
+        let r = self.model.ask("frame");
+        let t: Vec<&str> = r.split(' ').collect();
+        let mh = u64::from_str_radix(t[0], 16).unwrap_or(0);
+        // verdict: "ok" | "unspec" | "bad q shown exact"
+        let mut verdict: Vec<String> = t[1..t.len() - 2].iter().map(|s| s.to_string()).collect();
+        let model_rep = t[t.len() - 2];
+        let spec_rep = t[t.len() - 1];
+        if real != mh {
+            let v = self.model.ask(&format!("adj {}", Self::rle(&px)));
+            verdict = v.split(' ').map(|s| s.to_string()).collect();
+        }
+        let wl = self.writes_last_frame;
+        out.counts.push(("writes_per_frame".into(), if wl > 12 { "13+".into() } else { format!("{:02}", wl) }));
+        if verdict[0] == "bad" {
+            let q = usize::from_str_radix(&verdict[1], 16).unwrap_or(0);
+            self.fail(
+                Kind::SpecViolated,
+                if wl == 0 { "C09/frame/no-write" } else { "C09/frame/after-write" },
+                format!(
+                    "frame {} ({} port writes): border pixel ({},{}) shows colour code {} but the colour written before the beam got there is {} (and no position within 16 px on that line has the shown colour)",
+                    self.frames, wl, q % W, q / W, verdict[2], verdict[3]
+                ),
+                verdict[2].clone(),
+                verdict[3].clone(),
+            );
+        } else if real != mh {
+            // which pixel differs from the model
+            let mut first = None;
+            let mut lines = vec![];
+            // bisect by asking single pixels around run boundaries of the real buffer
+            let mut cand = vec![0usize];
+            for i in 1..px.len() {
+                if px[i] != px[i - 1] {
+                    for d in 0..3 {
+                        if i >= d {
+                            cand.push(i - d);
+                        }
+                        if i + d < px.len() {
+                            cand.push(i + d);
+                        }
+                    }
+                }
+            }
+            cand.truncate(4000);
+            for q in &cand {
+                lines.push(format!("bpx {:x}", q));
+            }
+            let ans = self.model.ask_many(&lines);
+            for (q, a) in cand.iter().zip(ans.iter()) {
+                let m = u8::from_str_radix(a, 16).unwrap_or(0xEE);
+                if m != px[*q] {
+                    first = Some((*q, m));
+                    break;
+                }
+            }
+            let what = match first {
+                Some((q, m)) => format!("first difference found at pixel ({},{}): buffer {:02x}, model {:02x}", q % W, q / W, px[q], m),
+                None => "difference not near a colour change of the real buffer".into(),
+            };
+            self.fail(
+                Kind::ModelMismatch,
+                "C09/model/frame",
+                format!("frame {} ({} port writes): the border buffer is within the spec's tolerance but differs from the model; {}", self.frames, wl, what),
+                format!("{:016x}", real),
+                format!("{:016x}", mh),
+            );
+        }
+        // reported colour
+        out.evals += 1;
+        let rep = self.e.border_color() as u8;
+        if spec_rep != "-" && format!("{:x}", rep) != spec_rep {
+            self.fail(
+                Kind::SpecViolated,
+                "C09/reported-colour",
+                format!("frame {}: border_color() reports {} but the last value written to the ULA / loaded from a snapshot has low bits {}", self.frames, rep, spec_rep),
+                format!("{}", rep),
+                spec_rep.to_string(),
+            );
+        } else if format!("{:x}", rep) != model_rep {
+            self.fail(
+                Kind::ModelMismatch,
+                "C09/model/reported-colour",
+                format!("frame {}: border_color() reports {}, the model {}", self.frames, rep, model_rep),
+                format!("{}", rep),
+                model_rep.to_string(),
+            );
+        }
+        out.classes.push(format!("reported colour {}", rep));
+    }
+    fn apply(&mut self, op: &Op, out: &mut Out) {
+        match op {
+            Op::Wait(n) => {
+                self.e.verif_wait(*n);
+                self.sync_frames();
+                self.model_op(&format!("wait {:x}", n));
+            }
+            Op::SetClk(t) => {
+                if *t < self.e.verif_frame_clocks() {
+                    return; // the clock hook only moves forward; keep the current clock
+                }
+                let t = (*t).min(clocks_frame(self.m128) - 1);
+                self.e.verif_set_frame_clocks(t);
+                self.model_op(&format!("setclk {:x}", t));
+            }
+            Op::Out(p, v) => {
+                let f0 = self.e.verif_frames_count();
+                self.e.verif_write_io(*p, *v);
+                // attribute the write to the frame in which it was latched
+                let crossed = self.e.verif_frames_count() != f0;
+                let latch_first = crossed && self.e.verif_frame_clocks() >= 4;
+                if crossed && latch_first {
+                    self.sync_frames();
+                }
+                self.writes_this_frame += 1;
+                self.sync_frames();
+                let latch = self.model_op(&format!("out {:04x} {:02x}", p, v));
+                if let Ok(t) = usize::from_str_radix(&latch, 16) {
+                    let reg = region(self.m128, t);
+                    out.counts.push(("write_region".into(), reg.into()));
+                    out.classes.push(format!("m128={} write in {} colour {}", self.m128, reg, v & 7));
+                    out.classes.push(format!("m128={} line phase {}", self.m128, (t + line_len(self.m128) * 400 - origin(self.m128)) % line_len(self.m128)));
+                } else {
+                    out.counts.push(("write_region".into(), "not routed to the ULA".into()));
+                }
+            }
+            Op::Z80Out(n, a) => {
+                // OUT (n),A at 0x8000: port = A*256 + n, data = A
+                for (i, b) in [0xD3u8, *n].iter().enumerate() {
+                    self.e.verif_write_mem(0x8000 + i as u16, *b, 0);
+                    let _ = self.model.ask("wait 0");
+                }
+                let cpu = self.e.verif_cpu();
+                cpu.regs.set_acc(*a);
+                cpu.regs.set_pc(0x8000);
+                cpu.regs.set_sp(0x9000);
+                cpu.regs.set_iff1(false);
+                cpu.halted = false;
+                self.sync_frames();
+                let r = catch_unwind(AssertUnwindSafe(|| {
+                    let _ = self.e.emulate_frames(Duration::from_secs(1));
+                }));
+                if r.is_err() {
+                    self.fail(Kind::ModelMismatch, "C09/panic", "panic in OUT (n),A".into(), "panic".into(), "-".into());
+                }
+                let passed = self.e.verif_frames_count();
+                self.last_fc = 0;
+                if passed > 0 {
+                    self.frames += passed as u64;
+                    self.writes_last_frame = self.writes_this_frame;
+                    self.writes_this_frame = 0;
+                }
+                self.last_fc = passed;
+                self.writes_this_frame += 1;
+                let _ = self.model.ask("wait 4");
+                let _ = self.model.ask("wait 3");
+                let port = ((*a as u16) << 8) | *n as u16;
+                let latch = self.model_op(&format!("out {:04x} {:02x}", port, a));
+                if let Ok(t) = usize::from_str_radix(&latch, 16) {
+                    out.counts.push(("write_region".into(), format!("{} (OUT (n),A)", region(self.m128, t))));
+                }
+            }
+            Op::Snap(c) => {
+                if self.m128 {
+                    return;
+                }
+                let mut f = vec![0u8; 27];
+                f[24] = 0x90;
+                f[25] = 1;
+                f[26] = *c;
+                f.extend_from_slice(&vec![0u8; 49152]);
+                let c0 = self.e.verif_frame_clocks();
+                if self.e.load_snapshot(Snapshot::Sna(VAsset::new(f))).is_ok() {
+                    let _ = self.model.ask(&format!("snap {:x}", c & 7));
+                    let d = self.e.verif_frame_clocks() - c0;
+                    self.sync_frames();
+                    self.model_op(&format!("wait {:x}", d));
+                    out.counts.push(("write_region".into(), "snapshot border".into()));
+                }
+            }
+            Op::Frame => {
+                self.finish_frame();
+                self.check_frame(out);
+            }
+        }
+    }
+}
+
+fn run_case(model: &mut Model, case: &Case, out: &mut Out) -> Vec<Fail> {
+    let mut sim = Sim::new(model, case.m128);
+    for op in &case.ops {
+        let r = catch_unwind(AssertUnwindSafe(|| sim.apply(op, out)));
+        if r.is_err() {
+            sim.fail(Kind::ModelMismatch, "C09/panic", format!("the emulator panicked during `{}`", op.text()), "panic".into(), "no panic".into());
+            break;
+        }
+    }
+    sim.fails
+}
+
+fn shrink(model: &mut Model, case: &Case, key: &str) -> Case {
+    let mut budget = 300usize;
+    let mut fails = |model: &mut Model, c: &Case| -> bool {
+        if budget == 0 {
+            return false;
+        }
+        budget -= 1;
+        let mut o = Out::default();
+        run_case(model, c, &mut o).iter().any(|f| f.key == key)
+    };
+    let mut cur = case.clone();
+    let mut chunk = (cur.ops.len() / 2).max(1);
+    loop {
+        let mut i = 0;
+        let mut changed = false;
+        while i < cur.ops.len() {
+            let end = (i + chunk).min(cur.ops.len());
+            let mut cand = cur.clone();
+            cand.ops.drain(i..end);
+            if !cand.ops.is_empty() && fails(model, &cand) {
+                cur = cand;
+                changed = true;
+            } else {
+                i = end;
+            }
+        }
+        if chunk == 1 && !changed {
+            break;
+        }
+        if !changed || chunk > 1 {
+            chunk = (chunk / 2).max(1);
+        }
+    }
+    cur
+}
+
+const PORTS: [u16; 8] = [0x00FE, 0xFEFE, 0x7FFE, 0x00FA, 0x1236, 0x40FE, 0xBF3E, 0xFF7E];
+
+/// one frame worth of ops: port writes at sorted clocks, biased to the interesting places
+fn frame_ops(r: &mut Rng, m128: bool, ops: &mut Vec<Op>) {
+    let f = clocks_frame(m128);
+    let l = line_len(m128);
+    let o = origin(m128);
+    let n = match r.below(10) {
+        0 | 1 => 0,
+        2 | 3 => 1,
+        4 => r.range(20, 60) as usize,
+        _ => r.range(2, 12) as usize,
+    };
+    let mut ts: Vec<usize> = vec![];
+    while ts.len() < n {
+        let t = match r.below(12) {
+            0 => r.below(o as u64 + 4) as usize,                                  // before the first visible line
+            1 => o + 240 * l - 8 + r.below(40) as usize,                             // around the end of the last line
+            2 => f - 1 - r.below(24) as usize,                                       // about to cross the frame end
+            3 => o + r.below(240) as usize * l + 152 + r.below((l - 152) as u64) as usize, // right border / retrace
+            4 => o + r.below(240) as usize * l + r.below(20) as usize,               // left border
+            5 | 6 => {
+                // several on one line
+                let base = o + r.below(240) as usize * l;
+                for _ in 0..r.range(1, 4) {
+                    ts.push(base + r.below(l as u64) as usize);
+                }
+                base + r.below(l as u64) as usize
+            }
+            7 => o + r.below(3) as usize,                                            // the very first pixels
+            _ => r.below(f as u64) as usize,
+        };
+        ts.push(t.min(f - 1));
+    }
+    ts.sort();
+    for t in ts {
+        ops.push(Op::SetClk(t));
+        let port = if r.chance(1, 12) { *r.pick(&[0xFFFDu16, 0xBFFD, 0x00FF, 0x7FFD]) } else { *r.pick(&PORTS) };
+        if r.chance(1, 10) {
+            ops.push(Op::Z80Out(0xFE, r.u8() & 0x3F));
+        } else {
+            ops.push(Op::Out(port, r.u8()));
+        }
+    }
+    ops.push(Op::Frame);
+}
+
+pub fn run(o: &Opts) -> Report {
     let mut rep = Report::new("C09");
-    rep.notes.push("not built yet".into());
+    rep.rule = "real Emulator vs. the Lean border model, per completed frame: the 320x240 border buffer must equal the \
+model's (FNV-1a hash) and satisfy the executable spec (colour of the last ULA write whose beam position is <= the pixel, \
++-16 px on the line; frames without a write: the colour in force); border_color() against the low 3 bits of the last \
+ULA write / snapshot border. Cases: both machines, 3-8 frames each, 0-60 port writes per frame at sorted frame clocks \
+biased to: before the first visible line, first pixels, left border, right border and horizontal retrace, several \
+writes on one line, the end of the last visible line, after it, and the last T-states before the frame end (writes \
+whose contention wait crosses the frame boundary); even ports of eight shapes plus non-ULA ports (AY, 7FFD, odd) that \
+must not change the border; one in ten writes is a real OUT (n),A executed by the emulated CPU; SNA loads for the \
+snapshot border. distinct/non-trivial = (machine, region of the frame in which the write is latched, colour), (machine, \
+clock within the line), reported colours"
+        .into();
+    let mut model = Model::spawn(&o.model, "C09");
+    if let Some(text) = &o.replay {
+        let case = Case::parse(text);
+        rep.sample(J::s(text.clone()));
+        let mut out = Out::default();
+        let fails = run_case(&mut model, &case, &mut out);
+        rep.evaluations += out.evals;
+        for f in fails {
+            rep.violation(Violation {
+                kind: f.kind,
+                key: f.key.clone(),
+                what: f.what.clone(),
+                correspondence: CORR.into(),
+                case: J::obj(vec![("text", J::s(case.text()))]),
+                implementation: f.imp.clone(),
+                expected: f.exp.clone(),
+            });
+        }
+        return rep;
+    }
+
+    let mut rng = Rng::new(o.seed ^ 0xC09);
+    let mut cases: Vec<Case> = vec![];
+    // fixed cases first: no write at all; one write; writes only after the last line; snapshot border
+    for m128 in [false, true] {
+        cases.push(Case { m128, ops: vec![Op::Frame, Op::Frame, Op::Out(0xFE, 2), Op::Frame, Op::Frame, Op::Frame] });
+        let f = clocks_frame(m128);
+        cases.push(Case {
+            m128,
+            ops: vec![Op::Out(0xFE, 1), Op::Frame, Op::SetClk(f - 3000), Op::Out(0xFE, 4), Op::Frame, Op::Frame, Op::SetClk(f - 2), Op::Out(0xFE, 6), Op::Frame, Op::Frame],
+        });
+    }
+    cases.push(Case { m128: false, ops: vec![Op::Out(0xFE, 3), Op::Frame, Op::Snap(5), Op::Frame, Op::Frame, Op::SetClk(20000), Op::Out(0xFE, 1), Op::Snap(0x0E), Op::Frame, Op::Frame] });
+    let n_cases = o.n(90, 9000) as usize;
+    for i in 0..n_cases {
+        let mut r = rng.fork();
+        let m128 = i % 2 == 1;
+        let mut ops = vec![];
+        for _ in 0..r.range(3, 8) {
+            frame_ops(&mut r, m128, &mut ops);
+        }
+        if !m128 && r.chance(1, 6) {
+            let k = r.below(ops.len() as u64) as usize;
+            ops.insert(k, Op::Snap(r.u8()));
+        }
+        cases.push(Case { m128, ops });
+    }
+
+    let threads = std::thread::available_parallelism().map(|n| n.get()).unwrap_or(4).clamp(1, 12);
+    let results: Vec<Vec<(usize, Out, Vec<Fail>)>> = std::thread::scope(|s| {
+        let handles: Vec<_> = (0..threads)
+            .map(|t| {
+                let cases = &cases;
+                let path = o.model.clone();
+                s.spawn(move || {
+                    let mut model = Model::spawn(&path, "C09");
+                    let mut res = vec![];
+                    for (i, case) in cases.iter().enumerate() {
+                        if i % threads != t {
+                            continue;
+                        }
+                        let mut out = Out::default();
+                        let fails = run_case(&mut model, case, &mut out);
+                        res.push((i, out, fails));
+                    }
+                    res
+                })
+            })
+            .collect();
+        handles.into_iter().map(|h| h.join().unwrap_or_default()).collect()
+    });
+    let mut flat: Vec<(usize, Out, Vec<Fail>)> = results.into_iter().flatten().collect();
+    flat.sort_by_key(|x| x.0);
+    if flat.len() != cases.len() {
+        rep.notes.push(format!("{} of {} cases did not complete (worker died)", cases.len() - flat.len(), cases.len()));
+    }
+    let mut frames = 0u64;
+    for (i, out, fails) in flat {
+        let case = &cases[i];
+        rep.evaluations += out.evals;
+        frames += case.ops.iter().filter(|o| matches!(o, Op::Frame)).count() as u64;
+        for c in out.classes {
+            rep.class(c);
+        }
+        for (h, b) in out.counts {
+            rep.count(&h, b);
+        }
+        rep.count("cases", if case.m128 { "128K" } else { "48K" });
+        if i == 1 || i == 6 {
+            rep.sample(J::s(case.text()));
+        }
+        for f in fails {
+            if rep.has_key(&f.key) {
+                rep.count("repeat_violations", f.key.clone());
+                continue;
+            }
+            let small = shrink(&mut model, case, &f.key);
+            let mut o2 = Out::default();
+            let f2 = run_case(&mut model, &small, &mut o2).into_iter().find(|x| x.key == f.key).unwrap_or(f);
+            rep.violation(Violation {
+                kind: f2.kind,
+                key: f2.key.clone(),
+                what: f2.what.clone(),
+                correspondence: CORR.into(),
+                case: J::obj(vec![("text", J::s(small.text()))]),
+                implementation: f2.imp.clone(),
+                expected: f2.exp.clone(),
+            });
+        }
+    }
+    rep.extra.push(("cases".into(), J::I(cases.len() as i64)));
+    rep.extra.push(("frames".into(), J::I(frames as i64)));
+    rep.extra.push(("worker_threads".into(), J::I(threads as i64)));
     rep
 }
